@@ -154,6 +154,45 @@ def run(tier):
         if t != want:
             vd.observe("sequence rendering is not the composition of its elements' renderings: %s of %s" % (kind, " ; ".join(one(e) for e in c)),
                        {"expected": want, "observed": t})
+    # 3c. integers that come from the input and carry a domain of their own (offsets, addresses, line numbers,
+    # sizes): %d %x %o %b and `value' give the radix asked for, whatever the domain shows by default, and the
+    # default form reads back as an equal value
+    import dwarfchk as D
+    tests = os.path.join(common.REPO, "tests")
+    SRC = ["entry offset", "entry low", "entry high", "symbol address", "symbol size", "entry @AT_decl_line", "entry @AT_byte_size",
+           "unit offset", "abbrev offset", "abbrev code", "entry @AT_location elem offset", "entry attribute offset",
+           "entry @AT_data_member_location", "entry @AT_upper_bound", "entry address low", "entry @AT_high_pc", "entry @AT_language value"]
+    djobs = []
+    for f in ("twocus", "a1.out", "nontrivial-types.o"):
+        for src in SRC:
+            djobs.append((os.path.join(tests, f), src + ' (|X| [X "%d", X "%x", X "%o", X "%b", X "%s", X value "%s"] X value)', False))
+    seen, dcmds, dmeta = set(), [], []
+    for (f, q, _), rec in zip(djobs, D.run_queries(drv, djobs, wd, "domint")):
+        if not rec or rec.get("status") != "ok":
+            continue
+        for st in rec["results"]:
+            if st[-1]["t"] != "cst" or st[-2]["t"] != "seq":
+                continue
+            v = int(st[-1]["v"])
+            texts = [binascii.unhexlify(e["hex"]).decode() for e in st[-2]["v"]]
+            if (q, v) in seen or len([1 for (qq, _) in seen if qq == q]) >= 40:
+                continue
+            seen.add((q, v))
+            for t, d in zip(texts, ["dec", "hex", "oct", "bin", None, "dec"]):
+                dcmds.append("\t".join(["run", str(len(dcmds)), "max=5", zw.hexq(t)])); dmeta.append((v, d, t, q, os.path.basename(f)))
+    dbyid = {r.get("id"): r for r in zw.run_driver(drv, dcmds, wd, tag="domre")}
+    for i, (v, d, t, q, f) in enumerate(dmeta):
+        vd.cov["evaluations"] += 1
+        r = dbyid.get(str(i))
+        ok = r and r.get("status") == "ok" and len(r["results"]) == 1 and r["results"][0][-1]["t"] == "cst"
+        got = r["results"][0][-1] if ok else None
+        if not ok or int(got["v"]) != v or (d and got["dom"] != d):
+            if v == 0 and d not in (None, "dec") and ok and int(got["v"]) == 0:
+                key = "zero in a non-decimal domain prints as a bare 0"
+            else:
+                key = "integer %d from `%s' prints `%s' where %s was asked for" % (v, q.split(" (|X|")[0], t, d or "its own form")
+            vd.observe(key, {"value": v, "asked": d, "printed": t, "reread": r, "file": f, "query": q})
+    vd.notes["domain_integers"] = len(dmeta)
     # 4. named constants: value vs the headers, rendering read back as a word, short aliases
     wr = zw.run_driver(drv, ["words\tw\t-\t00"], wd, tag="words")
     words = wr[0]["words"]
